@@ -566,12 +566,41 @@ mod verif_driver_compile {
                         for (name, q) in assets.iter() { have.insert((p.to_vec(), name.to_vec()), i64::from(*q) as i128); }
                     }
                     if have != want {
-                        witness("c02_cardano/compile_mint_block#postcondition", "compile_mint_block", input, format!("{have:?}"), "mint field == per-class sum of mints minus burns (zero classes absent)");
+                        witness("c02_cardano/compile_mint_block#postcondition", "compile_mint_block", input.clone(), format!("{have:?}"), "mint field == per-class sum of mints minus burns (zero classes absent)");
+                    }
+                    // C10: map-like fields contain no empty entries - a mint field that is present holds at least one
+                    // policy and every policy at least one asset
+                    if let Some(m) = &got {
+                        if m.is_empty() || m.iter().any(|(_, assets)| assets.is_empty()) {
+                            witness("c10_cardano/compile_mint_block#no-empty-entries", "compile_mint_block", input, format!("Some(map with {} policies, empty policy entries: {})", m.len(), m.iter().filter(|(_, a)| a.is_empty()).count()), "an absent mint field, or a map without empty entries");
+                        }
                     }
                 }
             }
         }
         println!("VERIF-CASES fn=compile_mint_block n={n}");
+    }
+
+    // ---- C10 (reproducibility): the Plutus scripts of the witness set come out in template order, the same in every
+    // compilation.  BOUND: 6 distinct scripts of one version + 2 of another, 33 repetitions.
+    #[test]
+    fn compile_adhoc_plutus_witness_deterministic() {
+        let mut n = 0;
+        let mut tx = empty_tx();
+        let script = |k: u8| tir::Expression::Bytes(vec![0x51, 0x01, 0x01, 0x00, k, k.wrapping_mul(91)]);
+        for k in 0..6u8 { tx.adhoc.push(adhoc("plutus_witness", vec![("version", num(3)), ("script", script(k))])); }
+        for k in 6..8u8 { tx.adhoc.push(adhoc("plutus_witness", vec![("version", num(2)), ("script", script(k))])); }
+        let want3: Vec<Vec<u8>> = (0..6u8).map(|k| vec![0x51, 0x01, 0x01, 0x00, k, k.wrapping_mul(91)]).collect();
+        for _ in 0..33 {
+            n += 1;
+            let got3: Vec<Vec<u8>> = compile_adhoc_plutus_witness::<3>(&tx).into_iter().map(|s| s.0.to_vec()).collect();
+            let got2 = compile_adhoc_plutus_witness::<2>(&tx).len();
+            if got3 != want3 || got2 != 2 {
+                witness("c10_cardano/compile_adhoc_plutus_witness#reproducible", "compile_adhoc_plutus_witness", "6 V3 scripts + 2 V2 scripts".into(), format!("V3 order {:?}, V2 count {got2}", got3.iter().map(|s| s[4]).collect::<Vec<_>>()), "the scripts of the requested version, in template order, the same in every compilation");
+                break;
+            }
+        }
+        println!("VERIF-CASES fn=compile_adhoc_plutus_witness n={n}");
     }
 
     // ---- C10 (reproducibility, no duplicates): reference / collateral / regular inputs are compiled in a
